@@ -599,7 +599,7 @@ func c19CompareRemoved(before, after *c19Node, rm *c19Removal) string {
 			for k, bv := range be {
 				av, ok := ae[k]
 				if !ok {
-					if rm.outOf[b.Callable][k] || (rm.anyPipeOut && b.Callable != rm.top && fq != before.Fqid) {
+					if rm.outOf[b.Callable][k] || (rm.anyPipeOut && b.Callable != rm.top && fq != before.Fqid) || (rm.ignoreForks && rm.forked) {
 						continue
 					}
 					return fmt.Sprintf("%s: output %s disappeared", fq, k)
@@ -612,7 +612,7 @@ func c19CompareRemoved(before, after *c19Node, rm *c19Removal) string {
 				}
 			}
 			for k := range ae {
-				if _, ok := be[k]; !ok {
+				if _, ok := be[k]; !ok && !(rm.ignoreForks && rm.forked) {
 					return fmt.Sprintf("%s: new output %s", fq, k)
 				}
 			}
@@ -622,6 +622,9 @@ func c19CompareRemoved(before, after *c19Node, rm *c19Removal) string {
 				// a pipeline node's fork roots are derived from its outputs; a stage's
 				// from its split-dependent inputs
 				continue
+			}
+			if k == "disabled" && len(rm.outOf[b.Callable]) > 0 {
+				continue // derived from the node's outputs, which are being removed
 			}
 			bv, av := b.JSON[k], a.JSON[k]
 			if rm.ignoreForks {
